@@ -754,6 +754,8 @@ class SimCluster(object):
         if rule is not None and rule["act"] == "error":
             snap = self.metadata_snapshot(names)
             for t in snap["topics"]:
+                if rule.get("only_topics") and t["name"] not in rule["only_topics"]:
+                    continue  # a partial failure: the other topics are answered as they are
                 t["error"] = rule["code"]
                 t["partitions"] = []
             self.respond(broker, st, entry, snap, rule)
@@ -847,7 +849,16 @@ class SimCluster(object):
 
     def _api_versions(self, broker, st, entry, rule):
         if rule is not None and rule["act"] == "error":
-            self.respond(broker, st, entry, {"error": rule["code"], "versions": []}, rule)
+            # an error answer may still list entries: a real broker answers UNSUPPORTED_VERSION with the ApiVersions entry
+            # alone, a proxy may stamp an error on the full table.  The error code decides: discovery has failed.
+            how = (rule["code"] + entry["corr"]) % 3
+            if how == 0:
+                versions = []
+            elif how == 1:
+                versions = [{"key": 18, "min": 0, "max": 0}]
+            else:
+                versions = [{"key": k, "min": v[0], "max": v[1]} for k, v in sorted(DEFAULT_VERSIONS.items())]
+            self.respond(broker, st, entry, {"error": rule["code"], "versions": versions}, rule)
             return
         if broker.api_versions == "default":
             table = [(k, v[0], v[1]) for k, v in sorted(DEFAULT_VERSIONS.items())]
